@@ -19,39 +19,43 @@ MODEL = 'the concurrent iterator is the executable model of T1 in kani/verif_kan
 
 MC_TEXT = 'bounded model checking of the real kernel/API code against the sequential oracle (same chain of std::iter adaptors) on exhaustively enumerated small shapes, composed with unbounded Verus proofs of the Runner and merge contracts; bounded part labelled bounded in the evidence'
 
+import kani_gen as _kg
+# composition-site harnesses (sequential mode, every three-step chain through count and reduce): see kani_gen.QUICK_API_SEQ
+COMP = r'|^k_api_seq_(?:%s)_(?:count|reduce)_' % '|'.join(c for c in _kg.CHAINS if c not in _kg.BASE_CHAINS)
+
 PROPS = {
     'C01': dict(
         level='model_checking', verus_units=['merge', 'core', 'utils', 'tasks'],
         kani=True,
-        kani_select=dict(quick=r'^k_order_|^k_src_|^k_dep_heap|^k_task_map_fil_col_n|^k_glue_map_fil_col_n2c1|^k_api_par2_(empty|fil|fmap|map_fil)_collect_vec',
-                         thorough=r'^k_order_|^k_src_|^k_dep_heap|^k_dep_bag|^k_task_\w+_col_n|^k_taskkeys_|^k_glue_\w+_col_n|^k_api_par2_\w+_collect(_vec)?_n'),
+        kani_select=dict(quick=r'^k_order_|^k_src_|^k_dep_heap|^k_task_map_fil_col_n|^k_glue_map_fil_col_n2c1|^k_api_par2_(empty|fil|fmap|map_fil)_collect_vec|^k_api_seq_(empty|fil)_collect_vec' + COMP,
+                         thorough=r'^k_order_|^k_src_|^k_dep_heap|^k_dep_bag|^k_task_\w+_col_n|^k_taskkeys_|^k_glue_\w+_col_n|^k_api_(par2|seq)_\w+_collect(_vec)?_n' + COMP),
         trusted_base=[T1, T2, T3, T4, T5, ASPEC, A64, ARITH, RSCHED, STUBS, MODEL],
         assumptions=[TASK_BOUND],
         explanation='Verus (unbounded, real text): heap_sort_into_vec/_pinned_vec append exactly the key-sorted enumeration of all (key,value) slots after the untouched prefix (every slot read once), for any number and length of worker vectors; Runner::run_map returns one result per worker in spawn order for every has_more() history. Verus (unbounded, real text, RW15/RW16): filtermap_fil_col::task and flatmap_fil_col::task return keys that are strictly increasing and are positions pulled by this worker (T1 assumed at the two pull sites), every value is a filter_map output that has a value and passes the filter; Fallible for Option never panics under has_value(). Kani (bounded): every collect kernel task returns exactly the survivors of the blocks delivered to it keyed by source position in strictly increasing key order (= the merge precondition, asserted by the merge contract stub); kernel glue and public API chains equal the std::iter chain. ' + MC_TEXT,
     ),
     'C02': dict(
-        level='model_checking', verus_units=['utils', 'core', 'merge'],
+        level='model_checking', verus_units=['utils', 'core', 'merge', 'dispatch'],
         kani=True,
-        kani_select=dict(quick=r'^k_order_|^k_task_\w+_find_n(3c1|2c1|1c1)|^k_glue_(map_fil|filtermap_fil)_find_n3c1|^k_api_par2_(map_fil_find|fil_first|map_any|fmap_fil_all|empty_find|fil_fil_find)',
-                         thorough=r'^k_order_|^k_task_\w+_find_|^k_glue_\w+_find_|^k_api_par2_\w+_(find|first|any|all)_n'),
+        kani_select=dict(quick=r'^k_order_|^k_task_\w+_find_n(3c1|2c1|1c1)|^k_glue_(map_fil|filtermap_fil)_find_n3c1|^k_api_(par2|seq)_(map_fil_find|fil_first|map_any|fmap_fil_all|empty_find|fil_fil_find)' + COMP,
+                         thorough=r'^k_order_|^k_task_\w+_find_|^k_glue_\w+_find_|^k_api_(par2|seq)_\w+_(find|first|any|all)_n' + COMP),
         trusted_base=[T1, T5, T6, A64, ARITH, RSCHED, STUBS, MODEL],
         assumptions=[TASK_BOUND, 'early exit: for every frontier f >= the block in which some worker matched, blocks <= f are delivered to their owners (exactly the possibilities under T1)'],
         explanation='Verus (unbounded): maybe_reduce case table (None neutral, reduce applied once in order on Some/Some); Runner::reduce folds every worker result once in spawn order. Lemma L2 (unit merge, pure spec): min-by-index over the per-worker first matches is the global first match for any number of workers, any assignment and any admissible early-exit frontier. Kani (bounded): each find kernel task returns the first survivor of its blocks with its source index; kernel glue with the min-by-index reduce returns the global first match for every block->worker table and every early-exit frontier, None iff nothing matches; find/first/any/all through the public API agree with std. ' + MC_TEXT,
     ),
     'C03': dict(
-        level='model_checking', verus_units=['utils', 'core', 'redtasks'],
+        level='model_checking', verus_units=['utils', 'core', 'redtasks', 'dispatch', 'merge'],
         kani=True,
-        kani_select=dict(quick=r'^k_task_\w+_red_n(3c1|1c1|2c1)|^k_task_\w+_red_n3c2_m11|^k_glue_map_fil_red_n3c1|^k_api_par2_(map_fil_reduce|fil_fold|map_min_by_key|map_fil_sum)',
-                         thorough=r'^k_task_\w+_red_|^k_glue_\w+_red_|^k_api_par2_\w+_(reduce|fold|sum|min|max|min_by|max_by|min_by_key|max_by_key)_n'),
+        kani_select=dict(quick=r'^k_task_\w+_red_n(3c1|1c1|2c1)|^k_task_\w+_red_n3c2_m11|^k_glue_map_fil_red_n3c1|^k_api_par2_(map_fil_reduce|fil_fold|map_min_by_key|map_fil_sum)|^k_api_seq_(map_fil_reduce|fil_fold|map_min_by_key|map_max_by_key|fil_max_by|map_fil_sum|fmap_fil_max|flat_reduce)' + COMP,
+                         thorough=r'^k_task_\w+_red_|^k_glue_\w+_red_|^k_api_(par2|seq)_\w+_(reduce|fold|sum|min|max|min_by|max_by|min_by_key|max_by_key)_n' + COMP),
         trusted_base=[T1, T5, T6, A64, ARITH, RSCHED, STUBS, MODEL],
         assumptions=[TASK_BOUND, 'operators checked: wrapping add, xor, min, max on u8 payloads (associative and commutative)'],
         explanation='Verus (unbounded): maybe_reduce case table; Runner::reduce returns the left fold of all worker results (each exactly once), None only for zero workers. Verus (unbounded, real text with RW17-RW19): in the three reduce kernel tasks the per-worker accumulator is None exactly when no chunk pulled so far had a survivor (a chunk without survivors never resets it), and the accumulator seed of the hand-unrolled filter_map arm passed the filter. Kani (bounded): each reduce kernel task folds exactly the survivors of its blocks with survivors-1 operator calls; glue and API wrappers (fold, sum, min, max, *_by, *_by_key) agree with the sequential fold; None iff nothing survives. ' + MC_TEXT,
     ),
     'C04': dict(
-        level='model_checking', verus_units=['core', 'redtasks'],
+        level='model_checking', verus_units=['core', 'redtasks', 'dispatch', 'merge'],
         kani=True,
-        kani_select=dict(quick=r'^k_task_\w+_cnt_n|^k_glue_map_fil_cnt_n3c1|^k_api_par2_(empty_count|map_fil_count|fil_for_each)',
-                         thorough=r'^k_task_\w+_cnt_|^k_glue_\w+_cnt_|^k_api_par2_\w+_(count|for_each)_n'),
+        kani_select=dict(quick=r'^k_task_\w+_cnt_n|^k_glue_map_fil_cnt_n3c1|^k_api_par2_(empty_count|map_fil_count|fil_for_each)|^k_api_seq_(\w+_count|fil_for_each)' + COMP,
+                         thorough=r'^k_task_\w+_cnt_|^k_glue_\w+_cnt_|^k_api_(par2|seq)_\w+_(count|for_each)_n' + COMP),
         trusted_base=[T1, T5, T6, A64, ARITH, RSCHED, STUBS, MODEL],
         assumptions=[TASK_BOUND],
         explanation='Verus (unbounded): Runner::reduce sums every worker count exactly once. Verus (unbounded, real text with RW19-RW21): in the three count kernel tasks the count of a worker is the sum of the survivors of all chunks it pulled (no overflow while the total fits in usize). Kani (bounded): each count kernel task (incl. the hand-rolled nested loop of filtermap_fil_cnt) returns the number of survivors among exactly the elements delivered to it; glue and count()/for_each() through the API agree with std; for_each calls its closure once per survivor. ' + MC_TEXT,
@@ -59,7 +63,7 @@ PROPS = {
     'C05': dict(
         level='model_checking', verus_units=[],
         kani=True,
-        kani_select=dict(quick=r'^k_dep_|^k_task_\w+_n3c1_m101|^k_task_flatmap_fil_(col|cnt|red|find)_n2c1|^k_api_par2_(map_fil_count|fil_for_each|map_fil_reduce|map_fil_find|fil_fil_find|map_fil_collect_vec)|^k_api_seq_(flat_fil_fil|map_fil_fil|fmap_fil_fil|fil_fil|fil_map|map_fil_map)_count',
+        kani_select=dict(quick=r'^k_dep_|^k_task_\w+_n3c1_m101|^k_task_flatmap_fil_(col|cnt|red|find)_n2c1|^k_api_par2_(map_fil_count|fil_for_each|map_fil_reduce|map_fil_find|fil_fil_find|map_fil_collect_vec)|^k_api_seq_\w+_count' + COMP,
                          thorough=r'^k_dep_|^k_task_|^k_glue_|^k_api_par2_|^k_api_seq_\w+_count'),
         trusted_base=[T1, T5, RSCHED, STUBS, MODEL],
         assumptions=[TASK_BOUND, 'clause 2 of the property (a by-value iterator source is advanced by one thread at a time) is the CAS handle protocol inside orx-concurrent-iter ConIterOfIter: no contract on orx-parallel functions can express or decide it; it is assumed (T1), NOT claimed by this check'],
@@ -77,8 +81,8 @@ PROPS = {
     'C07': dict(
         level='model_checking', verus_units=['core', 'redtasks'],
         kani=True,
-        kani_select=dict(quick=r'^k_task_(map_fil|filtermap_fil)_col_x_n3|^k_glue_map_fil_col_x_n2c1|^k_api_par2_(map|fil)_collect_x',
-                         thorough=r'^k_task_\w+_col_x_|^k_glue_\w+_col_x_|^k_api_\w+_collect_x_n'),
+        kani_select=dict(quick=r'^k_task_(map_fil|filtermap_fil)_col_x_n3|^k_glue_map_fil_col_x_n2c1|^k_api_par2_(map|fil)_collect_x|^k_api_seq_empty_collect_n' + COMP,
+                         thorough=r'^k_task_\w+_col_x_|^k_glue_\w+_col_x_|^k_api_\w+_collect_x_n|^k_api_seq_\w+_collect_n' + COMP),
         trusted_base=[T1, T4, T5, RSCHED, STUBS, MODEL],
         assumptions=[TASK_BOUND, 'flat_map collect_x kernels are in the thorough tier only (each harness needs 6-10 min of CBMC time)'],
         explanation='Verus (unbounded): Runner::run_map keeps exactly one vector per worker; in the three collect_x kernel tasks the worker vector keeps what it collected and its length is the sum of the survivors of the chunks it pulled (RW25/RW26). Kani (bounded): each collect_x kernel task returns the multiset of survivors of its blocks; glue with the real SplitVec::append and collect_x through the API are multiset-equal to the std chain. ' + MC_TEXT,
@@ -134,7 +138,7 @@ PROPS = {
         explanation='Verus (unbounded, real text): the merge reads every (vector, index) slot exactly once (ghost ledger `reads` is a bijection onto all slots) and pushes exactly that value to the output, so each value is owned exactly once by the output; Runner::run_map hands back every worker vector exactly once. Kani (bounded): a drop-counting item type through filter+collect (merge path), map+collect (ordered bag path) and find with early exit over the real ConIterOfVec: after the result is dropped every item has been dropped exactly once, none twice before.',
     ),
     'C15': dict(
-        level='proof', verus_units=['core', 'into'],
+        level='proof', verus_units=['core', 'into', 'dispatch'],
         kani=True,
         kani_select=dict(quick=r'^k_pair_|^k_dep_huge|^k_glue_map_fil_(cnt|find)_n3c1|^k_glue_filtermap_fil_find_n3c1|^k_glue_map_fil_red_n3c1', thorough=r'^k_pair_|^k_dep_huge|^k_glue_'),
         trusted_base=[T1, T5, AHW, A64, ASPEC, ARITH, STUBS, MODEL],
